@@ -325,6 +325,17 @@ async fn run_op(s: &mut Session, t: &[&str]) -> Result<(), String> {
                         _ => Err("bad action".into()),
                     }
                 }
+                ["xmlchunks", a, h, k] => {
+                    // the same fragment, streamed by a caller-supplied serialiser in blocks of k bytes
+                    let d = ChunkedPayload(hs(h)?, k.parse().map_err(|_| "bad block size".to_string())?);
+                    match *a {
+                        "merge" => load!(Config::new(d, Xml, Merge)),
+                        "override" => load!(Config::new(d, Xml, Override)),
+                        "update" => load!(Config::new(d, Xml, Update)),
+                        "replace" => load!(Config::new(d, Xml, Replace)),
+                        _ => Err("bad action".into()),
+                    }
+                }
                 ["xml", a, h] => {
                     let d = Opaque::from(hs(h)?);
                     match *a {
@@ -350,6 +361,20 @@ impl netconf::message::WriteXml for FailingPayload {
     fn write_xml<W: std::io::Write>(&self, writer: &mut quick_xml::Writer<W>) -> Result<(), netconf::message::WriteError> {
         writer.get_mut().write_all(self.0.as_bytes()).map_err(|e| netconf::message::WriteError::Other(e.into()))?;
         Err(netconf::message::WriteError::Other("payload source failed part-way".into()))
+    }
+}
+
+/// writes its text verbatim in blocks of `.1` bytes, each with a `write` of its own (a streaming
+/// source): what reaches the wire must not depend on where the blocks end
+#[derive(Debug, Clone)]
+struct ChunkedPayload(String, usize);
+
+impl netconf::message::WriteXml for ChunkedPayload {
+    fn write_xml<W: std::io::Write>(&self, writer: &mut quick_xml::Writer<W>) -> Result<(), netconf::message::WriteError> {
+        for block in self.0.as_bytes().chunks(self.1.max(1)) {
+            writer.get_mut().write_all(block).map_err(|e| netconf::message::WriteError::Other(e.into()))?;
+        }
+        Ok(())
     }
 }
 
@@ -993,6 +1018,23 @@ fn gen_cases(opts: &Opts, rng: &mut Rng) -> Vec<String> {
             ops.push(format!("load-configuration xml:{a}:{x}"));
         }
     }
+    // streamed fragments: the delimiter (inside a comment, so the fragment is well-formed) and a
+    // non-XML character, with every block size that cuts the delimiter at each of its five inner
+    // positions, and some that do not; the fragment without either, for comparison
+    for body in [
+        "<configuration><!-- ]]>]]> --><a/></configuration>",
+        "<configuration><a/><!--x]]>]]>--></configuration>",
+        "<configuration><a>]]&gt;]]&gt;</a></configuration>",
+        "<configuration><a/></configuration>",
+    ] {
+        for k in [1usize, 2, 3, 4, 5, 6, 7, 16, 19, 20, 21, 22, 23, 24, 8192] {
+            ops.push(format!("load-configuration xmlchunks:merge:{}:{k}", h(body)));
+        }
+        let big = format!("<configuration><!--{}--><!-- ]]>]]> --></configuration>", "p".repeat(8192 - 22));
+        for k in [8188usize, 8189, 8190, 8191, 8192, 8193, 8194, 4096] {
+            ops.push(format!("load-configuration xmlchunks:replace:{}:{k}", h(&big)));
+        }
+    }
     // payload serialisers that fail part-way (with nothing written, inside a start tag, between elements)
     for part in ["", "<configuration><policy-options><policy-statement><name>", "<configuration><a/>", "<configuration", "text"] {
         for a in ["merge", "override", "update", "replace"] {
@@ -1415,7 +1457,18 @@ fn run_request(case: &str, cfg: &str, sink: &mut Sink) {
     };
     let pre: usize = pre.parse().unwrap_or(0);
     let toks: Vec<&str> = op.split(' ').collect();
-    let exps = match expects(&toks) {
+    // `xmlchunks:<a>:<hex>:<k>` is the op `xml:<a>:<hex>` as far as the wire, the model and the
+    // expectations are concerned: only the real call differs (a serialiser that writes in blocks)
+    let op_model: String = op
+        .split(' ')
+        .map(|t| match t.strip_prefix("xmlchunks:") {
+            Some(rest) => format!("xml:{}", rest.rsplit_once(':').map(|x| x.0).unwrap_or(rest)),
+            None => t.to_string(),
+        })
+        .collect::<Vec<_>>()
+        .join(" ");
+    let toks_model: Vec<&str> = op_model.split(' ').collect();
+    let exps = match expects(&toks_model) {
         Ok(e) => e,
         Err(e) => {
             sink.direct(case, "violation harness-error".into());
@@ -1447,14 +1500,14 @@ fn run_request(case: &str, cfg: &str, sink: &mut Sink) {
                 .push(format!("{}: {e}", &case[..case.len().min(120)]));
         }
         Ok((Err(e), id)) => {
-            sink.corr(case, format!("ser wire {cfg} {id} {op}"), "refused".into());
+            sink.corr(case, format!("ser wire {cfg} {id} {op_model}"), "refused".into());
             sink.count("refused");
             sink.sample(format!("{} -> refused: {e}", &case[..case.len().min(100)]));
             // a refusal never violates the property: nothing is sent
             sink.direct(case, "ok".into());
         }
         Ok((Ok(w), id)) => {
-            sink.corr(case, format!("ser wire {cfg} {id} {op}"), hex(&w));
+            sink.corr(case, format!("ser wire {cfg} {id} {op_model}"), hex(&w));
             let (in_domain, cls) = domain(&exps);
             if in_domain {
                 sink.spec(case, format!("ser specframe {} {cls}", hex(&w)));
